@@ -27,6 +27,7 @@ import (
 	"github.com/B1NARY-GR0UP/originium/pkg/filter"
 	"github.com/B1NARY-GR0UP/originium/pkg/kway"
 	"github.com/B1NARY-GR0UP/originium/pkg/logger"
+	"github.com/B1NARY-GR0UP/originium/pkg/verifhook"
 	"github.com/B1NARY-GR0UP/originium/table"
 	"github.com/B1NARY-GR0UP/originium/types"
 	"github.com/B1NARY-GR0UP/originium/utils"
@@ -173,6 +174,7 @@ func (lm *levelManager) recover() int64 {
 		}
 
 		lm.levels[level].PushBack(th)
+		verifhook.At("rec.table", file, len(dataBlock.Entries))
 	}
 
 	return maxVersion
@@ -281,6 +283,7 @@ func (lm *levelManager) flushToL0(kvs []types.Entry) error {
 	lm.levels[0].PushBack(th)
 
 	// file name format: level-idx.db
+	defer verifhook.At("lm.flush", th.levelIdx, len(kvs))
 	return lm.writeTable(0, th.levelIdx, tableBytes)
 }
 
@@ -291,27 +294,35 @@ func (lm *levelManager) writeTable(level, idx int, tableBytes []byte) error {
 	name := lm.fileName(level, idx)
 	tmp := name + ".tmp"
 
+	verifhook.At("fs.pre", "create", tmp, 0)
 	fd, err := os.OpenFile(tmp, os.O_CREATE|os.O_RDWR|os.O_TRUNC, 0600)
+	verifhook.At("fs.post", "create", tmp, 0)
 	if err != nil {
 		return err
 	}
 
 	// write sstable
+	verifhook.At("fs.pre", "write", tmp, len(tableBytes))
 	if _, err = fd.Write(tableBytes); err != nil {
 		_ = fd.Close()
 		return err
 	}
+	verifhook.At("fs.post", "write", tmp, len(tableBytes))
 
 	// os sync
+	verifhook.At("fs.pre", "sync", tmp, 0)
 	if err = fd.Sync(); err != nil {
 		_ = fd.Close()
 		return err
 	}
+	verifhook.At("fs.post", "sync", tmp, 0)
 
 	if err = fd.Close(); err != nil {
 		return err
 	}
 
+	verifhook.At("fs.pre", "rename", tmp, 0)
+	defer verifhook.At("fs.post", "rename", tmp, 0)
 	return os.Rename(tmp, name)
 }
 
@@ -447,16 +458,21 @@ func (lm *levelManager) compactL0() {
 
 	// delete old sstables from L0
 	for _, e := range l0Tables {
+		verifhook.At("fs.pre", "remove", lm.fileName(0, e.Value.(tableHandle).levelIdx), 0)
 		if err := os.Remove(lm.fileName(0, e.Value.(tableHandle).levelIdx)); err != nil {
 			lm.logger.Panicf("failed to delete old sstable: %v", err)
 		}
+		verifhook.At("fs.post", "remove", lm.fileName(0, e.Value.(tableHandle).levelIdx), 0)
 	}
 	// delete old sstables from L1
 	for _, e := range l1Tables {
+		verifhook.At("fs.pre", "remove", lm.fileName(1, e.Value.(tableHandle).levelIdx), 0)
 		if err := os.Remove(lm.fileName(1, e.Value.(tableHandle).levelIdx)); err != nil {
 			lm.logger.Panicf("failed to delete old sstable: %v", err)
 		}
+		verifhook.At("fs.post", "remove", lm.fileName(1, e.Value.(tableHandle).levelIdx), 0)
 	}
+	verifhook.At("lm.compact", 0, len(l0Tables), len(l1Tables), th.levelIdx)
 }
 
 // LN -> LN+1
@@ -520,15 +536,20 @@ func (lm *levelManager) compactLN(n int) {
 	}
 
 	// delete old sstables from LN
+	verifhook.At("fs.pre", "remove", lm.fileName(n, lnTable.Value.(tableHandle).levelIdx), 0)
 	if err := os.Remove(lm.fileName(n, lnTable.Value.(tableHandle).levelIdx)); err != nil {
 		lm.logger.Panicf("failed to delete old sstable: %v", err)
 	}
+	verifhook.At("fs.post", "remove", lm.fileName(n, lnTable.Value.(tableHandle).levelIdx), 0)
 	// delete old sstables from LN+1
 	for _, e := range ln1Tables {
+		verifhook.At("fs.pre", "remove", lm.fileName(n+1, e.Value.(tableHandle).levelIdx), 0)
 		if err := os.Remove(lm.fileName(n+1, e.Value.(tableHandle).levelIdx)); err != nil {
 			lm.logger.Panicf("failed to delete old sstable: %v", err)
 		}
+		verifhook.At("fs.post", "remove", lm.fileName(n+1, e.Value.(tableHandle).levelIdx), 0)
 	}
+	verifhook.At("lm.compact", n, 1, len(ln1Tables), th.levelIdx)
 }
 
 // remove version <= discardAtOrBelow and keep latest version
